@@ -687,17 +687,22 @@ def _beam_filled_when_no_frame_was_processed(ctx: Ctx, fwd, rel: str, where_f: s
             Tn = n.targets[0].elts[0].id
     after = body[body.index(loop) + 1:]
     inl = Inliner(fwd.node, rd, keep=tuple({W} | trip_names | ({Tn} if Tn else set())))
+    # the statements of the fill-up: every assignment nested (at any depth) in an `if` that follows the loop and reads one of these
+    # names; each runs under the conjunction of its enclosing tests (`if W == 1: if width != 1:` is the same condition)
+    pm = parent_map(fwd.node)
+    vocab = {W} | trip_names | ({Tn} if Tn else set())
     tests = []
     for st in after:
-        if isinstance(st, ast.If):
-            ex = inl.expand(st.test)
-            names = {x.id for x in ast.walk(ex) if isinstance(x, ast.Name)}
-            if names & ({W} | trip_names | ({Tn} if Tn else set())):
-                tests.append((st, ex))
+        if isinstance(st, ast.If) and any(isinstance(x, ast.Name) and x.id in vocab for t_ in [x_.test for x_ in ast.walk(st) if isinstance(x_, ast.If)]
+                                          for x in ast.walk(inl.expand(t_))):
+            for a_ in ast.walk(st):
+                if isinstance(a_, (ast.Assign, ast.AugAssign)):
+                    gs = [(t_, pol_) for t_, pol_ in guards_of(pm, a_) if any(t_ is x_.test for x_ in ast.walk(st) if isinstance(x_, ast.If))]
+                    tests.append((a_, [(inl.expand(t_), pol_) for t_, pol_ in gs]))
     col.floor("fill_up_tests_after_the_frame_loop", len(tests), 1)
     bad = None
     try:
-        for st, ex in tests:
+        for st, gs in tests:
             for T_ in (0, 4):
                 for L in sorted({0, min(2, T_), T_}):
                     for width in (1, 3):
@@ -707,16 +712,16 @@ def _beam_filled_when_no_frame_was_processed(ctx: Ctx, fwd, rel: str, where_f: s
                         env[u(trip)] = L
                         for nm in trip_names:
                             env.setdefault(nm, L)
-                        got = bool(int_eval(ex, env))
+                        got = all(bool(int_eval(ex, env)) == pol_ for ex, pol_ in gs)
                         want = env[W] == 1 and width != 1
                         if got != want and bad is None:
-                            bad = (st, T_, L, width, got)
+                            bad = (st, T_, L, width, got, " and ".join(("" if pol_ else "not ") + u(ex)[:40] for ex, pol_ in gs))
     except NotEvaluable as e:
         col.undecided(f"{where_f}: the test of the fill-up after the frame loop depends on something else than the slot counter, the "
                       f"number of processed frames and the padded length ({e})")
         return
     col.ob("G12", "S6", f"{where_f}::beam-filled-exactly-when-no-frame-was-processed", bad is None,
-           (f"`if {u(bad[0].test)[:60]}` is {bad[4]} for a batch padded to T={bad[1]} of which {bad[2]} frame(s) were processed (max(lens)={bad[2]}) "
+           (f"`{u(bad[0])[:50]}` runs under `{bad[5]}`, which is {bad[4]} for a batch padded to T={bad[1]} of which {bad[2]} frame(s) were processed (max(lens)={bad[2]}) "
             f"with width={bad[3]}; the beam then has {1 if bad[2] == 0 else bad[3]} slot(s), so the fill-up to `width` slots must "
             f"{'run' if not bad[4] else 'not run'}: the result has the wrong number of slots (an all-empty padded batch returns a single slot "
             f"instead of `width`)") if bad else "", rel, bad[0].lineno if bad else loop.lineno, sample=dict(tests=len(tests)))
